@@ -6,6 +6,8 @@ from simkit.net import ScriptedEndpoint, fmt
 from . import common
 from .common import TOL
 
+MAX_TRANSMIT_WAIT = 93.0  # default transport tuning: ACK_TIMEOUT * (2 ** (MAX_RETRANSMIT + 1) - 1) * ACK_RANDOM_FACTOR
+
 PROPERTY = "C08"
 LEVEL = "exploration"
 RUNS = {"quick": 2000, "thorough": 30000}
@@ -27,7 +29,7 @@ ASSUMPTIONS = ["a re-registration on the same token starts a new registration (i
                "registrations still alive, on what the server transmitted (not on what the lossy network delivered)"]
 EXPECTED_PROBES = ["change_during_render", "coalesced_burst", "change_while_in_flight", "end_by_rst", "end_by_new_request", "end_by_deregister",
                    "end_by_timeout", "end_by_icmp", "end_by_senderr", "end_by_error_notification", "end_by_last_notification", "end_by_shutdown",
-                   "non_registration", "several_observers", "rst_on_non_notification", "observers_share_a_host", "sendmsg_failed", "end_event_during_render", "explicit_notification", "own_observation_under_observers_token", "partition", "change_in_the_iteration_of_an_end", "resource_breaks"]
+                   "non_registration", "several_observers", "rst_on_non_notification", "observers_share_a_host", "sendmsg_failed", "end_event_during_render", "explicit_notification", "own_observation_under_observers_token", "partition", "change_in_the_iteration_of_an_end", "resource_breaks", "notification_never_acknowledged"]
 
 REACTIONS = ["ack", "ack", "ack", "rst", "silent", "rereg", "dereg"]
 
@@ -91,6 +93,22 @@ def gen(r, tier):
         part = {"t0": round(r.uniform(1.5, t + 1), 3), "dur": r.choice([0.5, 3.0, 20.0, 100.0]), "observer": r.randrange(nobs)}
         ops.append({"op": "change", "t": round(part["t0"] + part["dur"] + r.choice([0.5, 5.0, 50.0]), 4), "n": 1})
         ops.sort(key=lambda o: o["t"])
+    if r.chance(0.08):
+        # a confirmable observer that falls silent for good (crashed, or everything it sends is lost) while the resource
+        # keeps changing faster than notifications time out: there is always a newer notification waiting behind the
+        # unacknowledged one
+        observers = observers[:2]
+        o = observers[0]
+        o["con"] = True
+        k = r.randint(1, 3)
+        o["reactions"] = ["ack"] * k + ["silent"] * 400
+        o.pop("no_response", None)
+        gap = r.choice([0.4, 1.0, 1.9])
+        t_s = ops[-1]["t"] if ops else 2.0
+        ops = [x for x in ops if x["op"] == "change" and x.get("observer", 0) < len(observers)]
+        for i in range(int(r.choice([110.0, 140.0]) / gap)):
+            ops.append({"op": "change", "t": round(t_s + (i + 1) * gap, 4), "n": 1})
+        part = None
     early = any(o["t"] < 1.5 and o["op"] in ("reg", "icmp", "senderr") for o in ops)
     return {"observers": observers, "ops": ops, "net": faults.swarm(r, kinds=("drop", "dup", "delay"), fault_free=0.35),
             "render_delay": r.choice([0.05, 0.05, 0.005]) if early else r.choice([0, 0, 0.0005, 0.005, 0.05]), "same_host": r.chance(0.3),
@@ -622,6 +640,24 @@ def execute(sim, scn):
                     ends.append((t, "senderr"))
             ncancel = len(reg["cancelled"])
             t_c = reg["cancelled"][0] if ncancel else None
+            # a confirmable notification that is never acknowledged has timed out MAX_TRANSMIT_WAIT after it was first
+            # sent at the latest, whatever else has been sent or queued since: the registration does not outlive that
+            first_tx = {}
+            for e in mine:
+                if e["msg"]["type"] == rc.CON:
+                    first_tx.setdefault(e["msg"]["mid"], e["t"])
+            for mid_, t_first in sorted(first_tx.items(), key=lambda kv: kv[1]):
+                deadline = t_first + MAX_TRANSMIT_WAIT
+                if deadline + 1.0 > loop.now:
+                    continue
+                if any(ee["src"] == E and (mm := _dec(dd)) is not None and mm["type"] in (rc.ACK, rc.RST) and mm["mid"] == mid_
+                       and tt <= deadline + TOL for (tt, ee, dd) in deliveries_to_srv):
+                    continue
+                sim.probe("notification_never_acknowledged")
+                if t_c is None or t_c > deadline + TOL:
+                    sim.violation("C08/registration-outlives-timed-out-notification",
+                                  dict(ident, mid=mid_, first_sent=t_first, deadline=deadline, ended=t_c))
+                break
             # only causes that happened while the registration was still alive count
             ends = sorted(x for x in ends if t_c is None or x[0] <= t_c + TOL)
             for e in mine:
